@@ -12,6 +12,9 @@ CHECKS = {
  'C14': ('exploration', 'runtime monitoring of instrumented Reqs callbacks (event log: call counts, concurrency, visit orders) under permuted lists and injected latencies with the race detector; results compared with a sequential fixpoint model; semver against an independent SemVer 2.0 model + order axioms',
    'Random requirement graphs, each run under several (permutation x latency) schedules with -race; BuildList/Req/Upgrade/UpgradeAll/Graph decided by a brute-force closure, Downgrade by invariants; semver on random valid/near-valid triples.',
    'Trusts the brute-force closure and the SemVer model (unit-tested against the semver.org examples); schedules are the ones the Go scheduler produced under the injected latencies.', 'DESIGN.md §4 C14'),
+ 'C01': ('exploration', 'metamorphic runtime monitor: every program and each of its meaning-preserving rearrangements is evaluated in isolated worker processes (write-ahead log, watchdog) and observed through the public cue.Value API; observations must be equal',
+   '1.5k (quick) / 25k (thorough) PRNG programs of the acyclic core fragment x 4-8 rearrangements + multi-file partition, plus the calibrated part of the frozen evaluator corpus with frozen rearrangements.',
+   'Equivalence is observational (kinds, values, defaults, closedness, optional/required, new-field constraints, probe-atom acceptance, error class per path). Fields that depend on a field erroneous in both programs are not compared. Two recorded findings matched by class.', 'DESIGN.md §4 C01'),
  'C06': ('exploration', 'reference-oracle monitor: every evaluated a op b, div/mod/quo/rem, comparison, literal and math builtin compared with a math/big oracle; order axioms on triples; print→read round trips',
    'Exhaustive over a boundary operand set (signs, 0, ±1..3, halves, 2^53/2^63/2^64/10^34±1/2^127/2^128) × itself, PRNG beyond (1-300 digit integers, decimals with exponents); literals generated from the spec grammar with their exact value.',
    'Trusts math/big, the 34-digit documented precision for /, and the literal generator (written from spec §Numeric literals). Two recorded findings (decimal + - * rounded to 34 digits; fractional SI literals rejected) are matched by exact class.', 'DESIGN.md §4 C06'),
